@@ -1,4 +1,4 @@
-/* c02_tables.h — hand-written expected attribute tables for the servers of shims/att_b.cpp (B1..B4) and the
+/* c02_tables.h — hand-written expected attribute tables for the servers of shims/att_b.cpp (B1..B7) and the
  * reference functions shared by the C02 / C03 / C04 harnesses.
  *
  * The tables are derived from the server *declarations* by the GATT rules (Core spec Vol 3 Part G 3.1-3.3) and
@@ -143,6 +143,54 @@ static const row_t table_b4[] = {
     { 0x000C, 0x2A01, NOT128, 0, K_VALUE,     2, -1, { 0x00, 0x00 } },
 };
 
+/* ---------------------------------------------------------------------------------------------- B5 (cfg 4) */
+static const row_t table_b5[] = {
+    { 0x0001, 0x2800, NOT128, 0x0006, K_PRIMARY, 16, -1, S_A9 },
+    { 0x0002, 0x2803, NOT128, 0, K_CHARDECL, 19, -1, { 0x1A, 0x03,0x00, 0xA8,0x3C,0xC7,0x5B,0xED,0x4E,0x8A,0xA2,0x9F,0x49,0xE2,0x0D,0x94,0x40,0x8B,0x8C } },
+    { 0x0003, 0,      S_A9_X1, 0, K_VALUE,    4,  0, {0} },                       /* b5_v1, read/write/notify */
+    { 0x0004, 0x2902, NOT128, 0, K_CCCD,      2, -1, { 0x00, 0x00 } },
+    { 0x0005, 0x2803, NOT128, 0, K_CHARDECL,  5, -1, { 0x0A, 0x06,0x00, 0x19,0x2A } },
+    { 0x0006, 0x2A19, NOT128, 0, K_VALUE,     1,  4, {0} },                       /* b5_v2 */
+    { 0x0007, 0x2800, NOT128, 0x000A, K_PRIMARY, 2, -1, { 0x16, 0x18 } },
+    { 0x0008, 0x2803, NOT128, 0, K_CHARDECL, 19, -1, { 0x02, 0x09,0x00, 0xFF,0x3C,0xC7,0x5B,0xED,0x4E,0x8A,0xA2,0x9F,0x49,0xE2,0x0D,0x94,0x40,0x8B,0x8C } },
+    { 0x0009, 0,      C_FF,   0, K_VALUE,     1, -1, { 0x42 } },
+    { 0x000A, 0x2904, NOT128, 0, K_DESC,      3, -1, { 0x08, 0x15, 0x47 } },
+};
+
+/* ---------------------------------------------------------------------------------------------- B6 (cfg 5) */
+static const row_t table_b6[] = {
+    /* service 0x180F, attribute_handle<0x10> */
+    { 0x0010, 0x2800, NOT128, 0x0034, K_PRIMARY, 2, -1, { 0x0F, 0x18 } },
+    /* attribute_handles<0x20,0x22>, notify */
+    { 0x0020, 0x2803, NOT128, 0, K_CHARDECL,  5, -1, { 0x12, 0x22,0x00, 0x19,0x2A } },
+    { 0x0022, 0x2A19, NOT128, 0, K_VALUE,     1, -1, { 0x42 } },
+    { 0x0023, 0x2902, NOT128, 0, K_CCCD,      2, -1, { 0x00, 0x00 } },
+    /* attribute_handles<0x30,0x32,0x34>, indicate */
+    { 0x0030, 0x2803, NOT128, 0, K_CHARDECL, 19, -1, { 0x2A, 0x32,0x00, 0x2A,0xD9,0x91,0x11,0xAB,0x5B,0x58,0xB0,0x3B,0x4F,0x50,0x44,0x52,0x6E,0x42,0xF0 } },
+    { 0x0032, 0,      C_F0,   0, K_VALUE,     2,  0, {0} },                       /* b6_v1 */
+    { 0x0034, 0x2902, NOT128, 0, K_CCCD,      2, -1, { 0x00, 0x00 } },
+    /* service D9473E00-..., no fixed handle: follows; characteristic attribute_handle<0x40> */
+    { 0x0035, 0x2800, NOT128, 0x0041, K_PRIMARY, 16, -1, S_D9 },
+    { 0x0040, 0x2803, NOT128, 0, K_CHARDECL,  5, -1, { 0x02, 0x41,0x00, 0x1B,0x2A } },
+    { 0x0041, 0x2A1B, NOT128, 0, K_VALUE,     1, -1, { 0x45 } },
+};
+
+/* ---------------------------------------------------------------------------------------------- B7 (cfg 6) */
+static const row_t table_b7[] = {
+    /* secondary service 0x18AA, attribute_handle<0x10> */
+    { 0x0010, 0x2801, NOT128, 0x0012, K_SECONDARY, 2, -1, { 0xAA, 0x18 } },
+    { 0x0011, 0x2803, NOT128, 0, K_CHARDECL,  5, -1, { 0x02, 0x12,0x00, 0xAA,0x2A } },
+    { 0x0012, 0x2AAA, NOT128, 0, K_VALUE,     1, -1, { 0x11 } },
+    /* primary service 0x18BB including 0x18AA, characteristic attribute_handle<0x20> */
+    { 0x0013, 0x2800, NOT128, 0x0021, K_PRIMARY, 2, -1, { 0xBB, 0x18 } },
+    { 0x0014, 0x2802, NOT128, 0, K_INCLUDE,   6, -1, { 0x10,0x00, 0x12,0x00, 0xAA,0x18 } },
+    { 0x0020, 0x2803, NOT128, 0, K_CHARDECL,  5, -1, { 0x0A, 0x21,0x00, 0xBB,0x2A } },
+    { 0x0021, 0x2ABB, NOT128, 0, K_VALUE,     2,  0, {0} },                       /* b7_v1 */
+    /* primary service 8C8B4094-..., attribute_handle<0x40>, including 0x18AA, no characteristic */
+    { 0x0040, 0x2800, NOT128, 0x0041, K_PRIMARY, 16, -1, S_A9 },
+    { 0x0041, 0x2802, NOT128, 0, K_INCLUDE,   6, -1, { 0x10,0x00, 0x12,0x00, 0xAA,0x18 } },
+};
+
 #define T_MAXROWS 21
 #define NROWS(t) ((int)(sizeof(t) / sizeof((t)[0])))
 
@@ -152,7 +200,10 @@ static inline const row_t* table_of(int cfg, int* n)
     case 0:  *n = NROWS(table_b1); return table_b1;
     case 1:  *n = NROWS(table_b2); return table_b2;
     case 2:  *n = NROWS(table_b3); return table_b3;
-    default: *n = NROWS(table_b4); return table_b4;
+    case 3:  *n = NROWS(table_b4); return table_b4;
+    case 4:  *n = NROWS(table_b5); return table_b5;
+    case 5:  *n = NROWS(table_b6); return table_b6;
+    default: *n = NROWS(table_b7); return table_b7;
     }
 }
 
@@ -163,6 +214,7 @@ size_t   vf_b_first_index_by_handle(int cfg, unsigned handle);
 size_t   vf_b_index_by_handle(int cfg, unsigned handle);
 size_t   vf_b_number_of_attributes(int cfg);
 void     vf_b_set_bound_values(int cfg, const uint8_t* bytes);
+int      vf_b_config(void);     /* configuration the unit was built with */
 
 /* Bluetooth base UUID 00000000-0000-1000-8000-00805F9B34FB, little endian; bytes 12,13 carry a 16 bit UUID */
 static const uint8_t bt_base[16] = { 0xFB,0x34,0x9B,0x5F,0x80,0x00,0x00,0x80,0x00,0x10,0x00,0x00,0x00,0x00,0x00,0x00 };
